@@ -431,6 +431,88 @@ def holdsC08 (h : History) (tr : ImplTrace) : Verdict := Id.run do
     idx := idx + 1
   return none
 
+/-- static height of the k-th top-level node when it is needed: leaves 1, others 1 + max of the inputs
+(`none` when the program has binds or expert nodes below it: heights are then dynamic) -/
+def staticHeight (nodes : Array Instr) : Nat → Nat → Option Nat
+  | 0, _ => none
+  | fuel+1, k =>
+    let ofOp (o : Opnd) : Option Nat := match o with
+      | .outer j => staticHeight nodes fuel j
+      | _ => none
+    let above (os : List Opnd) : Option Nat := do
+      let hs ← os.mapM ofOp
+      pure (1 + hs.foldl max 0)
+    match nodes[k]? with
+    | some (.const _) | some (.var _) | some .lhsConst => some 1
+    | some (.map _ args) => above args
+    | some (.fold _ _ cs) => if cs.isEmpty then some 1 else above cs
+    | some (.mapRef _ i) | some (.mapWithOld _ i) => above [i]
+    | some (.dependOn a b) => above [a, b]
+    | some (.zip a b) => match nodes[(match a with | .outer j => j | _ => 0)]?,
+                              nodes[(match b with | .outer j => j | _ => 0)]? with
+      | some (.const _), some (.const _) => some 1
+      | _, _ => above [a, b]
+    | _ => none
+
+/-- C19: the height limit is exact on static graphs (accepted iff the needed height is within the
+current limit, rejected with the height diagnostic at the stabilise that needs it; reconfiguration
+legal iff not below the greatest height used); announced misuse panics with one of the announced
+diagnostics instead of returning; dropping everything afterwards does not panic. -/
+def holdsC19 (h : History) (tr : ImplTrace) : Verdict := Id.run do
+  let mut sh := Shadow.init h
+  let mut limit : Nat := h.maxHeight
+  let mut maxUsed : Nat := 0
+  let mut poisoned := false
+  let mut expect : Option (List String) := none
+  let mut idx := 0
+  let dynamic := h.actions.any fun a => match a with
+    | .create (.bind ..) | .create (.expert _) => true
+    | _ => false
+  for a in h.actions do
+    let rec_ := tr[idx]?.getD {}
+    let announced := expect.isSome
+    match expect, a with
+    | some cls, .expectPanic _ => expect := some cls
+    | some cls, _ =>
+      let got := if rec_.api.startsWith "panic " then (rec_.api.drop 6).toString else rec_.api
+      if !(cls.contains got) then
+        return some s!"action {idx}: expected a panic naming one of {cls}, got `{rec_.api}`"
+      expect := none
+    | none, _ => pure ()
+    match a with
+    | .expectPanic cls => expect := some cls
+    | .dropAll =>
+      if rec_.api != "ok" then return some s!"action {idx}: dropping the handles and the state answered `{rec_.api}`"
+    | .stabilise =>
+      if !poisoned && !dynamic && !announced then
+        let roots := (List.range sh.obs.size).filterMap fun o =>
+          if sh.inUse o then (sh.obs[o]?.map (·.1)) else none
+        let needs := roots.filterMap fun r => match r with
+          | .outer k => staticHeight sh.prog.nodes 200 k
+          | _ => none
+        let need := needs.foldl max 0
+        if need > limit then
+          if rec_.api != "panic height-limit" then
+            return some s!"action {idx}: the graph needs height {need} > limit {limit} but stabilise answered `{rec_.api}`"
+        else
+          if rec_.api != "ok" then
+            return some s!"action {idx}: the graph needs height {need} ≤ limit {limit} but stabilise answered `{rec_.api}`"
+          maxUsed := max maxUsed need
+    | .setMaxHeight m =>
+      if !poisoned && !dynamic then
+        if m ≥ maxUsed then
+          if rec_.api != "ok" then
+            return some s!"action {idx}: set_max_height_allowed({m}) with greatest height in use {maxUsed} answered `{rec_.api}`"
+          limit := m
+        else if rec_.api != "panic below-max-seen" then
+          return some s!"action {idx}: set_max_height_allowed({m}) below the greatest height in use {maxUsed} answered `{rec_.api}`"
+      else if rec_.api == "ok" then limit := m
+    | _ => pure ()
+    if !((words rec_.stats).contains "status=NotStabilising") && !rec_.stats.isEmpty then poisoned := true
+    sh := sh.step a idx rec_.api
+    idx := idx + 1
+  return none
+
 def evalProp (prop : String) (h : History) (tr : ImplTrace) : Verdict :=
   match prop with
   | "WF" => wellFormed h
@@ -443,6 +525,7 @@ def evalProp (prop : String) (h : History) (tr : ImplTrace) : Verdict :=
   | "C10" => holdsC10 h tr
   | "C09" => holdsC09 h tr
   | "C11" => holdsC11 h tr
+  | "C19" => holdsC19 h tr
   | _ => some "unknown-property"
 
 end IncrVerif.Spec
